@@ -162,11 +162,11 @@ def positions(rng, W, cw, xh):
     return [v for v in c if 0 <= v <= 65535]
 
 
-def gen_script(rng, big=False, midfail=False):
+def gen_script(rng, big=False, midfail=False, scaled=False):
     bpp = rng.choice([1, 2, 4, 1, 2, 4, 3])
     if big:
         W, H, bpp = rng.choice([(100, 90), (128, 70), (96, 96)]) + (4,)
-    elif rng.random() < 0.08:
+    elif rng.random() < 0.08 and not scaled:
         W, H = rng.choice([(1, 1), (2, 3), (3, 1), (1, 5), (8, 2)])
     else:
         W, H = rng.randint(6, 40), rng.randint(5, 30)
@@ -189,6 +189,17 @@ def gen_script(rng, big=False, midfail=False):
             lines.append("client %d %s %s" % (i, k, rng.choice([f for f in sorted(FMTS) if f != "f24" or bpp == 3])))
         else:
             lines.append("client %d %s" % (i, k))
+    # picture size of each client; with `scaled` some clients (never client 0) ask for 1/2 or 1/3
+    dims = [(W, H)] * len(kinds)
+    if scaled:
+        if len(kinds) == 1:
+            kinds.append(gen_encs(rng)); lines.append("client 1 %s" % kinds[1]); dims.append((W, H))
+        for i in range(1, len(kinds)):
+            if i == 1 or rng.random() < 0.5:
+                f = rng.choice([2, 3])
+                lines.append("scale %d %d" % (i, f))
+                dims[i] = (W // f, H // f)
+    unscaled = [i for i in range(len(kinds)) if dims[i] == (W, H)]
     nrounds = rng.choice([2, 4, 7, 10]) if not big else 3
     for r in range(nrounds):
         if rng.random() < 0.25:
@@ -205,7 +216,7 @@ def gen_script(rng, big=False, midfail=False):
             px = rng.choice(positions(rng, W, cw, xh))
             py = rng.choice(positions(rng, H, ch, yh))
             b = 0 if rng.random() < 0.85 else rng.choice([1, 4])
-            lines.append("ptr %d %d %d %d" % (rng.randrange(len(kinds)), px, py, b))
+            lines.append("ptr %d %d %d %d" % (rng.choice(unscaled), px, py, b))
         if rng.random() < 0.12:              # a client changes its cursor capability mid-session
             lines.append("setenc %d %s" % (rng.randrange(len(kinds)), gen_encs(rng)))
         if rng.random() < 0.25 and W >= 4 and H >= 4:      # the application scrolls part of the screen
@@ -224,13 +235,14 @@ def gen_script(rng, big=False, midfail=False):
                 lines.append("copy %d %d %d %d %d %d" % (x1, y1, x2, y2, dx, dy))
         for i in range(len(kinds)):
             q = rng.random()
+            cw_, ch_ = dims[i]
             if q < 0.62 or big:
-                lines.append("req %d 1 0 0 %d %d" % (i, W, H))
-            elif q < 0.72:
-                lines.append("req %d 0 0 0 %d %d" % (i, W, H))
+                lines.append("req %d 1 0 0 %d %d" % (i, cw_, ch_))
+            elif q < 0.72 or (scaled and q < 0.8):
+                lines.append("req %d 0 0 0 %d %d" % (i, cw_, ch_))
             elif q < 0.88:
-                w, h = rng.randint(1, W), rng.randint(1, H)
-                lines.append("req %d %d %d %d %d %d" % (i, rng.randint(0, 1), rng.randint(0, W - w), rng.randint(0, H - h), w, h))
+                w, h = rng.randint(1, cw_), rng.randint(1, ch_)
+                lines.append("req %d %d %d %d %d %d" % (i, rng.randint(0, 1), rng.randint(0, cw_ - w), rng.randint(0, ch_ - h), w, h))
         if midfail and r == nrounds - 1:
             lines.append("draw 0 0 %d %d %d" % (W, H, rng.randint(1, 99)))
             lines.append("failnext %d %d" % (rng.randrange(len(kinds)), rng.choice([1, 1, 2])))
@@ -416,6 +428,7 @@ def oracle(script, impl):
     bpp, W, H = 4, 0, 0
     cur = default_cursor_spec()
     kinds, dead, owed_shape, owed_pos, cfmts, poscap = {}, set(), {}, {}, {}, {}
+    pdim, fullni, fullpic, dirty = {}, {}, {}, 0    # scaled clients: picture size, pending full non-incremental request, last such picture
     pos, pclient = (0, 0), None
     for op in ops:
         t = op.split()
@@ -455,6 +468,13 @@ def oracle(script, impl):
                     continue
                 if m.group(13):
                     return "client %d could not parse the server's output" % cid
+                # a cursor-shape client (scaled or not) that is sent the whole screen again although the
+                # application has not touched the framebuffer must get the same picture again
+                if kinds.get(cid) != "raw" and fullni.get(cid):
+                    if cid in fullpic and fullpic[cid][0] == dirty and fullpic[cid][1] != m.group(12):
+                        return "client %d: a full refresh gives another picture (%s, before %s) although the application did not touch the framebuffer" % (cid, m.group(12), fullpic[cid][1])
+                    fullpic[cid] = (dirty, m.group(12))
+                fullni[cid] = False
                 if kinds[cid] != "raw":
                     if owed_shape.get(cid):
                         e = check_shape(m.group(9), kinds[cid], cur, bpp, cfmts.get(cid))
@@ -477,6 +497,17 @@ def oracle(script, impl):
             continue
         if t[0] == "screen":
             W, H, bpp = int(t[1]), int(t[2]), int(t[3])
+        elif t[0] in ("draw", "copy"):
+            dirty += 1
+        elif t[0] == "scale":
+            mm = re.match(r"^ok (\d+)x(\d+)$", ob)
+            if mm:
+                pdim[int(t[1])] = (int(mm.group(1)), int(mm.group(2)))
+                fullpic.pop(int(t[1]), None)
+        elif t[0] == "req":
+            c = int(t[1])
+            if t[2] == "0" and (int(t[3]), int(t[4])) == (0, 0) and (int(t[5]), int(t[6])) == pdim.get(c, (W, H)):
+                fullni[c] = True
         elif t[0] == "cursor":
             cur = parse_cursor_op(t, bpp)
             for c in kinds:
@@ -490,6 +521,7 @@ def oracle(script, impl):
         elif t[0] == "setenc":
             c = int(t[1])
             kinds[c], poscap[c], _ = enc_info(t[2])
+            fullpic.pop(c, None)
             # shape and position become due again - the position whenever PointerPos is listed
             # together with a cursor-shape encoding, in whatever order
             owed_shape[c] = kinds[c] != "raw"
@@ -544,6 +576,29 @@ def stats_of(script, impl, dist):
             dist["oracle_checks"] += 1
     dist["updates_with_cursor_painted"] += painted
     return painted
+
+
+def scaled_scripts(rng):
+    """scaled clients next to a soft-cursor client (judged by the direct oracles only: the scaling filter
+    is property C17): the unscaled soft-cursor client is updated with the pointer at several positions,
+    then the scaled clients are sent the whole screen again"""
+    out = []
+    for sb in (1, 2, 4):
+        for ck in ("default", "rich"):
+            W, H = 24, 18
+            lines = ["screen %d %d %d" % (W, H, sb)]
+            if ck == "rich":
+                lines.append("cursor rich 6 5 1 2 %s %s 65535 0 0 0 0 65535" % (
+                    hx(bytes(rng.randrange(256) for _ in range(30 * sb))), hx(rand_bits(rng, 6, 5, "dense", True))))
+            lines += ["client 0 raw", "client 1 rich", "client 2 raw", "client 3 x", "scale 1 2", "scale 2 3", "scale 3 2"]
+            reqs = lambda inc: ["req 0 %d 0 0 24 18" % inc, "req 1 %d 0 0 12 9" % inc, "req 2 %d 0 0 8 6" % inc, "req 3 %d 0 0 12 9" % inc]
+            lines += reqs(0) + ["pump"]
+            for (px, py) in ((10, 8), (3, 3), (23, 17), (0, 0)):
+                lines += ["ptr 0 %d %d 0" % (px, py), "req 0 1 0 0 24 18", "pump"]        # only the unscaled client is updated
+                lines += reqs(0) + ["pump"]                                          # everybody gets everything again
+            lines += ["draw 4 4 9 6 %d" % rng.randint(1, 99)] + reqs(1) + ["pump"] + reqs(0) + ["pump"]
+            out.append("\n".join(lines) + "\n")
+    return out
 
 
 def matrix_scripts(rng):
@@ -742,6 +797,11 @@ def run(ctx):
             scripts.append(("corpus:" + name, sc, True))
         for sc in matrix_scripts(ctx.rng):
             scripts.append(("matrix", excl(sc), True))
+        # scaled clients: the scaling filter is C17's, these scripts are judged by the direct oracles only
+        for sc in scaled_scripts(ctx.rng):
+            scripts.append(("scaled", sc, False))
+        for k in range(30 if ctx.tier == "quick" else 600):
+            scripts.append(("gen-scaled", excl(gen_script(ctx.rng, scaled=True)), False))
         n = 350 if ctx.tier == "quick" else 15000
         for k in range(n):
             scripts.append(("gen", excl(gen_script(ctx.rng)), True))
@@ -760,7 +820,7 @@ def run(ctx):
             rc, impl, err = ctx.run_lines(h, sc, timeout=300)
             f = None
             if rc != 0:
-                f = {"kind": "crash", "what": "cursor session (mid-stream failure): harness exit %d" % rc,
+                f = {"kind": "crash", "what": "cursor session (%s): harness exit %d" % (what, rc),
                      "script": sc.splitlines()[:400], "impl": impl[-20:], "detail": err}
         o = None
         if not (f and f["kind"] == "crash"):
@@ -793,6 +853,8 @@ def run(ctx):
         evals += 1
         if what == "gen-midfail":
             dist["midstream_failure_scripts"] += 1
+        if what in ("scaled", "gen-scaled"):
+            dist["scaled_client_scripts"] = dist.get("scaled_client_scripts", 0) + 1
         recs = []
         if f:
             recs.append(f)
